@@ -45,6 +45,10 @@ int c_dateutils_add1month(int * date)
 {
     int nbday;
 
+    /* No year after the last one */
+    if(date[1] >= 12 && date[0] == INT_MAX)
+        return DATEUTILS_ERROR + __LINE__;
+
     /* change month */
     if(date[1] < 12)
     {
@@ -75,6 +79,10 @@ int c_dateutils_add1day(int * date)
     nbday = c_dateutils_daysinmonth(date[0], date[1]);
 
     if(nbday < 0)
+        return DATEUTILS_ERROR + __LINE__;
+
+    /* No year after the last one */
+    if(date[2] == nbday && date[1] >= 12 && date[0] == INT_MAX)
         return DATEUTILS_ERROR + __LINE__;
 
     if(date[2] < nbday)
@@ -109,6 +117,10 @@ int c_dateutils_add1day(int * date)
 int c_dateutils_getdate(double day, int * date)
 {
     int year, month, nday, nbday;
+
+    /* The day number has to fit in an integer */
+    if(isnan(day) || day <= (double)INT_MIN || day >= (double)INT_MAX)
+        return DATEUTILS_ERROR + __LINE__;
 
     year = (int)(day * 1e-4);
     month = (int)(day * 1e-2) - year * 100;
